@@ -147,7 +147,8 @@ var docMarkers = map[int]string{0xC0: "SOF0", 0xC1: "SOF1", 0xC2: "SOF2", 0xC3: 
 // a few tag names typed from the Exif 2.32 / TIFF 6 tag tables (spot table; the
 // full id space is still enumerated for totality and fallback form).
 var docRootTags = map[int]string{0x0100: "ImageWidth", 0x0101: "ImageLength", 0x010f: "Make", 0x0110: "Model", 0x0112: "Orientation",
-	0x0131: "Software", 0x0132: "DateTime", 0x013b: "Artist", 0x8298: "Copyright", 0x8769: "ExifTag", 0x8825: "GPSTag", 0x014a: "SubIFDs"}
+	0x0131: "Software", 0x0132: "DateTime", 0x013b: "Artist", 0x8298: "Copyright", 0x8769: "ExifTag", 0x8825: "GPSTag", 0x014a: "SubIFDs",
+	0x0111: "StripOffsets", 0x0117: "StripByteCounts", 0x0103: "Compression", 0x011a: "XResolution", 0x011b: "YResolution"}
 var docExifTags = map[int]string{0x829a: "ExposureTime", 0x829d: "FNumber", 0x8822: "ExposureProgram", 0x9003: "DateTimeOriginal",
 	0x9004: "DateTimeDigitized", 0x9204: "ExposureBiasValue", 0x9207: "MeteringMode", 0x9209: "Flash", 0x920a: "FocalLength",
 	0x927c: "MakerNote", 0xa002: "PixelXDimension", 0xa003: "PixelYDimension", 0xa434: "LensModel"}
@@ -380,6 +381,7 @@ func c17Cases() []enumCase {
 func init() {
 	cases := c17Cases()
 	h := func(x *mc.Exec) {
+		normalise()
 		ci := x.All("type", len(cases))
 		c := cases[ci]
 		x.Note("type", c.name)
